@@ -238,6 +238,10 @@ pub struct WrapCase {
     /// (boundary values of the space: 1, 2, 2^16-2, 2^16-1, and runs that end at the top)
     #[serde(default)]
     pub keep_values: Vec<u32>,
+    /// the allocations at the `keep` positions are objects added to the sender (implicit TOI, never
+    /// transmitted, so they stay live) instead of reserved handles
+    #[serde(default)]
+    pub keep_as_object: bool,
 }
 
 /// a full trip around the 16-bit TOI space with a few long-lived handles: the allocator has to
@@ -251,14 +255,28 @@ pub fn run_wrap(c: &WrapCase) -> CaseResult {
     let mut live: BTreeSet<u128> = BTreeSet::new();
     let mut seen_twice = 0u32;
     let mut seen: BTreeSet<u128> = BTreeSet::new();
+    let mut live_objects = 0u32;
     for i in 0..c.total {
+        if c.keep_as_object && c.keep.contains(&i) {
+            let (t, _) = drv.add(&ObjSpec::simple(10, i as u64))?;
+            if t == 0 || t >= 1 << 16 {
+                return Err(format!("allocation {} (object) returned TOI {} outside 1..2^16", i, t));
+            }
+            if live.contains(&t) {
+                return Err(format!("allocation {} (object) returned TOI {} although a handle or object with that value is still alive ({:?})", i, t, live));
+            }
+            seen.insert(t);
+            live.insert(t);
+            live_objects += 1;
+            continue;
+        }
         let h = drv.sender.allocate_toi();
         let t = h.get();
         if t == 0 || t >= 1 << 16 {
             return Err(format!("allocation {} returned TOI {} outside 1..2^16", i, t));
         }
         if live.contains(&t) {
-            return Err(format!("allocation {} returned TOI {} although a handle with that value is still alive (kept handles: {:?})", i, t, live));
+            return Err(format!("allocation {} returned TOI {} although a handle or object with that value is still alive (kept: {:?})", i, t, live));
         }
         if !seen.insert(t) {
             seen_twice += 1;
@@ -273,6 +291,7 @@ pub fn run_wrap(c: &WrapCase) -> CaseResult {
     info.label_if(seen_twice > 0, "went around the 16-bit space");
     info.label_if(live.contains(&65535), "the largest TOI of the width stayed reserved while the allocator wrapped");
     info.label_if(live.contains(&1), "TOI 1 stayed reserved while the allocator wrapped");
+    info.label_if(live_objects > 0, "live objects (not only handles) in the way");
     Ok(info)
 }
 
@@ -292,7 +311,7 @@ pub fn run(eng: &mut Engine) {
     eng.generated(
         PartCfg::new(
             "wrap16",
-            "70 000 allocations on the 16-bit width (more than one trip around the space) with handles kept alive at generated positions and at generated values (biased to the ends of the space: 1, 2, 2^16-2, 2^16-1 and runs of up to 4 values ending at the top): no returned value may equal a live handle, 0 or exceed 2^16-1; non-trivial = the allocator went around the space with live handles in its way; distinct by case",
+            "70 000 allocations on the 16-bit width (more than one trip around the space) with handles (or, in half of the cases, objects added to the sender) kept alive at generated positions and handles at generated values (biased to the ends of the space: 1, 2, 2^16-2, 2^16-1 and runs of up to 4 values ending at the top): no returned value may equal a live handle, 0 or exceed 2^16-1; non-trivial = the allocator went around the space with live handles in its way; distinct by case",
             tier.pick(400, 4000),
         ),
         || {
@@ -302,14 +321,15 @@ pub fn run(eng: &mut Engine) {
                 proptest::collection::vec(0u32..66_000, 0..8),
                 proptest::collection::vec(value, 0..4),
                 0u32..5,
+                any::<bool>(),
             )
-                .prop_map(|(initial, keep, mut keep_values, top_run)| {
+                .prop_map(|(initial, keep, mut keep_values, top_run, keep_as_object)| {
                     for j in 0..top_run {
                         keep_values.push(65535 - j);
                     }
                     keep_values.sort();
                     keep_values.dedup();
-                    WrapCase { initial, keep, total: 70_000, keep_values }
+                    WrapCase { initial, keep, total: 70_000, keep_values, keep_as_object }
                 })
                 .boxed()
         },
